@@ -9,7 +9,15 @@ def run(ctx):
                 programs=["s02_amo_retry_caughtfail", "s04_cb_invoke", "s05_wfcb_childfail_wfcfail", "s10_uncaught_failure",
                           "s13_child_raises_caught", "s14_amo_exhaust", "s15_cb_uncaught", "s17_child_wfc_inside", "s19_wfcfail_then_wait",
                           {"nodes": [{"k": "step", "val": v} for v in (1, 2, 4)] + [{"k": "wait"}, {"k": "step", "val": 5}, {"k": "step", "val": 6}]},
-                          {"nodes": [{"k": "child", "body": [{"k": "step", "val": 3}, {"k": "step", "val": 9}]}, {"k": "wait"}, {"k": "step", "val": 0}]}],
+                          {"nodes": [{"k": "child", "body": [{"k": "step", "val": 3}, {"k": "step", "val": 9}]}, {"k": "wait"}, {"k": "step", "val": 0}]},
+                          # map / parallel: small and oversized (ReplayChildren) results, early completion, failures caught by class
+                          {"nodes": [{"k": "map", "branches": [[{"k": "step", "val": 2}], [{"k": "step"}, {"k": "wait"}], [{"k": "step", "val": 6}]]},
+                                     {"k": "wait"}, {"k": "step"}]},
+                          {"nodes": [{"k": "par", "explicit_cfg": True, "large_items": [0, 1], "cfg": {"min": 2},
+                                      "branches": [[{"k": "step"}], [{"k": "step"}], [{"k": "wait", "s": 5}]]}, {"k": "wait"}, {"k": "step"}]},
+                          {"nodes": [{"k": "map", "explicit_cfg": True, "large_items": [0, 1, 2], "cfg": {"tolc": 1}, "braise": [3], "caught": True,
+                                      "branches": [[{"k": "step"}], [{"k": "step"}], [{"k": "step"}], []]}, {"k": "wait"}, {"k": "step"}]},
+                          {"nodes": [{"k": "par", "caught": True, "braise": [1], "branches": [[{"k": "step", "dur": 0.3}], []]}, {"k": "wait"}]}],
                 oracle_fns=[oracles.c02],
                 n_scen=(6, 16),
                 scen_kw={"crash": 0.6, "paging": 0.4},
